@@ -51,6 +51,14 @@ theorem disable_exact {p : Proj} (h : Partition p) (names : List String) :
     DisableSpec p names (withServicesDisabled p names) :=
   withServicesDisabled_spec h names
 
+/-- the disabled half of `WithServicesDisabled names`: a moved service is the old service minus its dependencies on
+the names listed **up to and including itself** (`upTo`).  So the result is a function of the receiver and of the
+argument *list*; the order of the arguments matters in exactly this way and in no other (`disable_exact` is
+symmetric in the names), and the iteration order of the maps does not matter at all (`disable_perm`). -/
+theorem disable_moved_exact {p : Proj} (h : Partition p) (names : List String) :
+    DisableMovedSpec p names (withServicesDisabled p names) :=
+  withServicesDisabled_movedSpec h names
+
 /-- after disabling, no remaining service depends on a removed one -/
 theorem no_dangling_after_disable {p : Proj} (h : Partition p) (names : List String) :
     NoDepOn (withServicesDisabled p names) names :=
@@ -185,6 +193,32 @@ theorem select_error_iff {p : Proj} (g : Good p) {names : List String} (hn : nam
       · exact .inr a
     · intro _
       simp [withSelectedServices, hw, ne]
+  | outOfFuel => exact absurd hw (forEachService_fuel h.1 names pol)
+
+/-- the disabled half of a successful selection (after the `fix:` commit): a non-selected service is the old service
+minus its dependencies on the non-selected services whose name is not greater than its own -/
+theorem select_moved_exact {p : Proj} (h : Partition p) {names : List String} (hn : names ≠ []) {pol : Policy}
+    {q : Proj} (hq : withSelectedServices p names pol = .ok q) (S : List String)
+    (hS : ∀ x, x ∈ S ↔ Reach p.services pol names x) : SelectMovedSpec p S q := by
+  cases hw : forEachService p names pol with
+  | ok set =>
+    rw [withSelectedServices_ok h.1 hn hw] at hq
+    cases hq
+    have same : ∀ x, x ∈ set ↔ x ∈ S := fun x => by rw [forEachService_reach h.1 hn hw, hS]
+    intro kv hkv hx
+    have := selectResult_movedSpec h set kv hkv hx
+    cases hs : lookup kv.1 p.services with
+    | none => simp [hs, sat] at this
+    | some s =>
+      simp only [hs, sat] at this ⊢
+      rw [this]
+      congr 1
+      apply List.filter_congr
+      intro d _
+      simp only [same]
+  | noSuchService =>
+    have : names.isEmpty = false := by cases names <;> simp_all
+    simp [withSelectedServices, hw, this] at hq
   | outOfFuel => exact absurd hw (forEachService_fuel h.1 names pol)
 
 /-- after selecting, every dependency of a remaining service is a remaining service -/
@@ -380,15 +414,17 @@ theorem prune_perm {p p' : Proj} (e : SameProj p p') :
   refine ⟨fun k => ?_, fun k => ?_, fun k => ?_, fun k => ?_⟩ <;>
     simp only [withoutUnnecessaryResources, lookup_pick, mem, e1, e2, e3, e4]
 
-/-- the provable part of `op_perm` for `WithSelectedServices` (the full statement is refuted in `Neg/C15.lean`):
-the *enabled* half of the result does not depend on the iteration order -/
-theorem select_perm_partial {p p' : Proj} (h : Partition p) (e : SameProj p p') {names : List String} {pol : Policy}
+/-- `WithSelectedServices` (after the `fix:` commit) is a function of the project, the names and the policy:
+whatever the iteration order of the service map, both halves of the result are the same maps.
+(Before the fix only the enabled half was: `Neg/C15.lean`.) -/
+theorem select_perm {p p' : Proj} (h : Partition p) (e : SameProj p p') {names : List String} {pol : Policy}
     {q q' : Proj} (hq : withSelectedServices p names pol = .ok q) (hq' : withSelectedServices p' names pol = .ok q') :
-    LookEq q.services q'.services := by
+    LookEq q.services q'.services ∧ LookEq q.disabled q'.disabled ∧ q.profiles = q'.profiles := by
   have h' := partition_perm h e
   have es := lookEq_of_perm e.1 h.1
+  have ed := lookEq_of_perm e.2.1 h.2.1
   by_cases hn : names = []
-  · subst hn; cases hq; cases hq'; exact es
+  · subst hn; cases hq; cases hq'; exact ⟨es, ed, e.2.2.1⟩
   · have ne : names.isEmpty = false := by cases names <;> simp_all
     cases hw : forEachService p names pol with
     | ok set =>
@@ -400,27 +436,69 @@ theorem select_perm_partial {p p' : Proj} (h : Partition p) (e : SameProj p p') 
         have same : ∀ x, x ∈ set ↔ x ∈ set' := fun x => by
           rw [forEachService_reach h.1 hn hw, forEachService_reach h'.1 hn hw']
           exact ⟨reach_lookEq es, reach_lookEq (fun k => (es k).symm)⟩
-        intro k
-        show lookup k (selectedPruned set p.services) = lookup k (selectedPruned set' p'.services)
-        rw [lookup_selectedPruned h.1, lookup_selectedPruned h'.1, es k]
-        have pe : pruneDeps set = pruneDeps set' := by
-          funext s; unfold pruneDeps; congr 1
-          apply List.filter_congr; intro d _
-          by_cases a : d.1 ∈ set
-          · simp [a, (same _).1 a]
-          · have : d.1 ∉ set' := fun c => a ((same _).2 c)
+        have un : unselected set p.services = unselected set' p'.services := by
+          unfold unselected
+          apply sortNames_eq_of_perm
+          unfold nonSelected
+          have : (fun kv : String × Svc => decide (kv.1 ∉ set)) = (fun kv => decide (kv.1 ∉ set')) := by
+            funext kv
+            by_cases a : kv.1 ∈ set
+            · simp [a, (same _).1 a]
+            · have : kv.1 ∉ set' := fun c => a ((same _).2 c)
+              simp [a, this]
+          rw [this]
+          exact (e.1.filter _).map _
+        refine ⟨fun k => ?_, ?_, ?_⟩
+        · show lookup k (selectedPruned set p.services) = lookup k (selectedPruned set' p'.services)
+          rw [lookup_selectedPruned h.1, lookup_selectedPruned h'.1, es k]
+          have pe : pruneDeps set = pruneDeps set' := by
+            funext s; unfold pruneDeps; congr 1
+            apply List.filter_congr; intro d _
+            by_cases a : d.1 ∈ set
+            · simp [a, (same _).1 a]
+            · have : d.1 ∉ set' := fun c => a ((same _).2 c)
+              simp [a, this]
+          by_cases a : k ∈ set
+          · simp [a, (same k).1 a, pe]
+          · have : k ∉ set' := fun c => a ((same k).2 c)
             simp [a, this]
-        by_cases a : k ∈ set
-        · simp [a, (same k).1 a, pe]
-        · have : k ∉ set' := fun c => a ((same k).2 c)
-          simp [a, this]
+        · show LookEq (withServicesDisabled p (unselected set p.services)).disabled
+            (withServicesDisabled p' (unselected set' p'.services)).disabled
+          rw [un]
+          exact (disable_perm h e _).2
+        · show (withServicesDisabled p _).profiles = (withServicesDisabled p' _).profiles
+          rw [withServicesDisabled_profiles, withServicesDisabled_profiles]; exact e.2.2.1
       | noSuchService => simp [withSelectedServices, hw', ne] at hq'
       | outOfFuel => exact absurd hw' (forEachService_fuel h'.1 names pol)
     | noSuchService => simp [withSelectedServices, hw, ne] at hq
     | outOfFuel => exact absurd hw (forEachService_fuel h.1 names pol)
 
-/-- the full-strength statement fails on the unchanged tree (witness in `Neg/C15.lean`) -/
-theorem select_perm_fails : ¬Neg.SelectPermInvariant := Neg.select_not_perm_invariant
+/-- success or failure of `WithSelectedServices` does not depend on the iteration order either -/
+theorem select_perm_outcome {p p' : Proj} (g : Good p) (e : SameProj p p') {names : List String} (hn : names ≠ [])
+    (pol : Policy) : withSelectedServices p names pol = .err ↔ withSelectedServices p' names pol = .err := by
+  have es := lookEq_of_perm e.1 g.1.1
+  have g' : Good p' := ⟨partition_perm g.1 e, fun kv hkv => g.2 kv (by
+    rcases List.mem_append.1 hkv with a | a
+    · exact List.mem_append_left _ (e.1.mem_iff.2 a)
+    · exact List.mem_append_right _ (e.2.1.mem_iff.2 a))⟩
+  have mr : ∀ x, MissingRequired p.services pol x ↔ MissingRequired p'.services pol x := by
+    intro x
+    unfold MissingRequired
+    rw [es x]
+    cases lookup x p'.services with
+    | none => simp [sat]
+    | some s => simp only [sat, mem_keys_lookEq es]
+  rw [select_error_iff g hn, select_error_iff g' hn]
+  constructor
+  · rintro (⟨n, a, b⟩ | ⟨x, a, b⟩)
+    · exact .inl ⟨n, a, fun c => b ((mem_keys_lookEq es n).2 c)⟩
+    · exact .inr ⟨x, reach_lookEq es a, (mr x).1 b⟩
+  · rintro (⟨n, a, b⟩ | ⟨x, a, b⟩)
+    · exact .inl ⟨n, a, fun c => b ((mem_keys_lookEq es n).1 c)⟩
+    · exact .inr ⟨x, reach_lookEq (fun k => (es k).symm) a, (mr x).2 b⟩
+
+/-- before the `fix:` commit the full-strength statement failed (witness in `Neg/C15.lean`, on the old loop) -/
+theorem select_perm_failed_before_fix : ¬Neg.SelectPermInvariant := Neg.select_not_perm_invariant
 
 /-! ## non-vacuity -/
 
